@@ -12,15 +12,16 @@ theorem reduce64_pre {x y : Nat} {a b c d : Int} (hx : x < W) (hx63 : 2 ^ 63 ≤
     (hy32 : 2 ^ 32 ≤ y) (h : reduce64 x y = some (a, b, c, d)) :
     ∃ u v : Nat, a * x + b * y = u ∧ c * x + d * y = v ∧ u ≤ y ∧ 2 * v ≤ u ∧
       |a| < 2 ^ 36 ∧ |b| < 2 ^ 36 ∧ |c| < 2 ^ 36 ∧ |d| < 2 ^ 36 ∧ a * b ≤ 0 ∧ c * d ≤ 0 ∧
-      Unimod a b c d := by
+      Unimod a b c d ∧ 2 ^ 24 ≤ u ∧ |a| * u ≤ 2 * y ∧ |c| * u ≤ 2 * y ∧ |b| * u ≤ 2 * x ∧
+      |d| * u ≤ 2 * x := by
   obtain ⟨a', b', c', d', u, v, hr, hinv, hexit⟩ := reduce64_spec x y hx (by omega)
   rw [h] at hr
   simp only [Option.some.injEq, Prod.mk.injEq] at hr
   obtain ⟨rfl, rfl, rfl, rfl⟩ := hr
   have hxI : (0 : Int) < x := by exact_mod_cast (by omega : 0 < x)
   have hyI : (0 : Int) < y := by exact_mod_cast (by omega : 0 < y)
-  have hphase : u ≤ y ∧ 2 * v ≤ u := by
-    rcases hinv.phase with ⟨_, _, hc, hd, rfl, rfl⟩ | ⟨_, _, _, _, _, _, hlt⟩ | ⟨h1, h2⟩
+  have hphase : u ≤ y ∧ 2 * v ≤ u ∧ 2 ^ 24 ≤ u := by
+    rcases hinv.phase with ⟨_, _, hc, hd, rfl, rfl⟩ | ⟨_, _, _, _, _, _, hlt⟩ | ⟨h1, h2, h3⟩
     · -- still in the initial state: impossible, the loop performs at least one iteration
       exfalso
       subst hc hd
@@ -36,9 +37,26 @@ theorem reduce64_pre {x y : Nat} {a b c d : Int} (hx : x < W) (hx63 : 2 ^ 63 ≤
         have h2 : bits (max (0 : Int).natAbs (1 : Int).natAbs) ≤ 1 := bits_le_of_lt (by decide)
         omega
     · omega
-    · exact ⟨by omega, h2⟩
-  refine ⟨u, v, hinv.relu, hinv.relv, hphase.1, hphase.2, hinv.ba, hinv.bb, hinv.bc, hinv.bd, ?_, ?_,
-    hinv.det⟩
+    · exact ⟨by omega, h2, h3⟩
+  have hU0 : (0 : Int) ≤ u := Int.natCast_nonneg _
+  have hV0 : (0 : Int) ≤ v := Int.natCast_nonneg _
+  have h2I : 2 * (v : Int) ≤ u := by exact_mod_cast hphase.2.1
+  have huyI : (u : Int) ≤ y := by exact_mod_cast hphase.1
+  have hyxI : (y : Int) ≤ x := by exact_mod_cast hyx
+  have hXx : |d * (u : Int) - b * v| = x := by
+    have e : d * (u : Int) - b * v = (a * d - b * c) * x := by
+      rw [← hinv.relu, ← hinv.relv]; ring
+    rw [e]
+    rcases hinv.det with hd | hd <;> rw [hd] <;> simp [abs_of_nonneg (le_of_lt hxI)]
+  have hXy : |c * (u : Int) - a * v| = y := by
+    have e : c * (u : Int) - a * v = -((a * d - b * c) * y) := by
+      rw [← hinv.relu, ← hinv.relv]; ring
+    rw [e]
+    rcases hinv.det with hd | hd <;> rw [hd] <;> simp [abs_of_nonneg (le_of_lt hyI)]
+  obtain ⟨kd, kb⟩ := col_entry_bound hU0 hV0 h2I hinv.colbd hXx (le_trans huyI hyxI)
+  obtain ⟨kc, ka⟩ := col_entry_bound hU0 hV0 h2I hinv.colac hXy huyI
+  refine ⟨u, v, hinv.relu, hinv.relv, hphase.1, hphase.2.1, hinv.ba, hinv.bb, hinv.bc, hinv.bd, ?_, ?_,
+    hinv.det, hphase.2.2, ka, kc, kb, kd⟩
   · -- a x + b y = u ≤ y ≤ x forces opposite signs
     by_contra hpos
     have hpos : 0 < a * b := by omega
